@@ -850,3 +850,36 @@ def module_constants(tree: ast.Module) -> Dict[str, Any]:
         if isinstance(st, ast.FunctionDef) and st.name.startswith("_") and not st.decorator_list:
             out[st.name] = Closure(st, None)
     return out
+
+
+def follow_private_methods(cls_info, base_hook=None, also=()):
+    """A call hook that follows the private methods (and those named in `also`) of one class when they are called on self / cls / the
+    class itself: a method split into helpers is read as one."""
+    def hook(m, node, name, args, kwargs):
+        if base_hook is not None:
+            r = base_hook(m, node, name, args, kwargs)
+            if r is not NotImplemented:
+                return r
+        head, _, short = name.rpartition(".")
+        from .inline import known_helpers
+        known = f"{cls_info.module.name}:{cls_info.name}.{short}" in known_helpers() and short not in also     # a helper the rules know by name
+        if not known and head in ("self", "cls", cls_info.name) and short in cls_info.methods \
+                and ((short.startswith("_") and not short.startswith("__")) or short in also):
+            h = cls_info.methods[short].node
+            decos = {ast.unparse(d) for d in h.decorator_list}
+            if "property" in decos or any(d.endswith(".setter") for d in decos):
+                return NotImplemented
+            if getattr(m, "_follow_depth", 0) > 6:
+                return NotImplemented
+            m._follow_depth = getattr(m, "_follow_depth", 0) + 1
+            try:
+                if "staticmethod" in decos:
+                    return m.invoke(Closure(h, None), list(args), kwargs)
+                if "classmethod" in decos:
+                    return m.invoke(Closure(h, None), [Opaque("cls")] + list(args), kwargs)
+                if head == "self":
+                    return m.invoke(Closure(h, None), [Opaque("self")] + list(args), kwargs)
+            finally:
+                m._follow_depth -= 1
+        return NotImplemented
+    return hook
